@@ -1037,6 +1037,42 @@ def c01r(ctx):
             ctx.fail(o, s_, "CalleeOrder::abort_callee selects an entry that is NOT the aborted callee: a cancelled call removes another dependency from the recorded order")
 
 
+def c01s(ctx):
+    """A node's stored firewall set and what it has OBSERVED of its callees' firewall sets (the fingerprints that decide
+    `has the set below this callee changed?`) describe one state.  When a node is verified clean and its firewall set is
+    rebuilt from the callees' current sets, the observations must be refreshed with it.  If they are not, a callee that
+    goes {F1} -> {F2} -> {F1} compares equal to the stale observation, the node keeps {F2}, stops repairing F1 before it is
+    verified, and a change behind F1 is never seen (ABA on the fingerprint)."""
+    prog = ctx.prog
+    o = ctx.ob("C01.s", "clean_query/firewall-set-and-observations-replaced-together", "K2+K5",
+               "clean_query stores forward_edge_observation whenever it stores a rebuilt firewall set, and should_recompute_query refreshes seen_transitive_firewall_callees_fingerprint from the callees it rebuilt the set from")
+    b = ctx.touch(prog.coroutine_of("Snapshot::clean_query"))
+    ni, ob = [], []
+    for s_ in b.calls(lambda f, t: bool(MAP_WRITE.search(f["path"])) and f["path"].endswith("::insert")):
+        ap = df.access_path(b, s_.node["args"][0])
+        if "node_info" in ap:
+            ni.append(s_)
+        if "forward_edge_observation" in ap:
+            ob.append(s_)
+    o.sites = len(ni) + len(ob)
+    if not ni:
+        ctx.fail(o, Site(b, 0, 0), "anchor missing: the node_info write of clean_query")
+    for s_ in ni:
+        if not ob or (b.must_pass([s_.node["t"]], [x.bb for x in ob]) and not any(b.site_dominates(x, s_) for x in ob)):
+            ctx.fail(o, s_, "clean_query stores a rebuilt firewall set without the matching observations: the node keeps comparing its callees' firewall sets with fingerprints "
+                     "from before the rebuild (a callee that returns to an earlier set looks unchanged and the rebuilt set is never corrected)")
+    r = ctx.touch(prog.coroutine_of("Snapshot::should_recompute_query"))
+    refresh = [a for a in r.assigns(lambda st: any(e.startswith("f:seen_transitive_firewall_callees_fingerprint") for e in st["lhs"][1]))]
+    o.sites += len(refresh)
+    if not refresh:
+        ctx.fail(o, Site(r, 0, 0), "should_recompute_query rebuilds the firewall set from its callees but never refreshes what it has observed of their firewall sets")
+    for a in refresh:
+        rv = a.node["rv"]
+        os_ = list(df.origins_of_operand(r, rv["op"])) if rv["k"] == "use" else []
+        if not any(x.kind == "call" and (x.callee() or "").endswith("transitive_firewall_callees_fingerprint") for x in os_):
+            ctx.fail(o, a, "the refreshed observation is not the callee's current transitive_firewall_callees_fingerprint()")
+
+
 def _variant_name(prog, adt, v):
     try:
         return prog.adts[adt]["variants"][int(v)]["name"]
@@ -1055,6 +1091,7 @@ def run(ctx):
     ctx.run_clause("C01.p", c01p)
     ctx.run_clause("C01.q", c01q)
     ctx.run_clause("C01.r", c01r)
+    ctx.run_clause("C01.s", c01s)
     ctx.run_clause("C01.j", c01j)
     ctx.run_clause("C01.i", c01i)
     for c, f in (("C01.a", c01a), ("C01.b", c01b), ("C01.c", c01c), ("C01.c", c01c_roles), ("C01.d", c01d), ("C01.e", c01e), ("C01.f", c01f), ("C01.g", c01g)):
